@@ -95,11 +95,20 @@ def erfinv(ctx, x):
 @defun_wrapped
 def npdf(ctx, x, mu=0, sigma=1):
     sigma = ctx.convert(sigma)
-    return ctx.exp(-(x-mu)**2/(2*sigma**2)) / (sigma*ctx.sqrt(2*ctx.pi))
+    d = ctx.fsub(x, mu, exact=True)
+    # exp amplifies the error of its argument by (d/sigma)^2/2
+    if d and sigma and not (ctx.isinf(d) or ctx.isnan(d) or ctx.isinf(sigma) or ctx.isnan(sigma)):
+        ctx.prec += max(0, 2*(ctx.mag(d) - ctx.mag(sigma)))
+    return ctx.exp(-d**2/(2*sigma**2)) / (sigma*ctx.sqrt(2*ctx.pi))
 
 @defun_wrapped
 def ncdf(ctx, x, mu=0, sigma=1):
-    a = (x-mu)/(sigma*ctx.sqrt(2))
+    sigma = ctx.convert(sigma)
+    d = ctx.fsub(x, mu, exact=True)
+    # erfc amplifies the error of its argument by 2*a^2 in the tail
+    if d and sigma and not (ctx.isinf(d) or ctx.isnan(d) or ctx.isinf(sigma) or ctx.isnan(sigma)):
+        ctx.prec += max(0, 2*(ctx.mag(d) - ctx.mag(sigma)))
+    a = d/(sigma*ctx.sqrt(2))
     if a < 0:
         return ctx.erfc(-a)/2
     else:
